@@ -41,6 +41,10 @@ type Sched struct {
 	free   bool
 	dead   bool
 	Log    []Arrival // every arrival in global order (diagnostics)
+	// PassThrough, when set, names the arrivals that are recorded but do not park the goroutine
+	// (e.g. a caller about to block in its channel receive: holding it back would hide who
+	// really receives what the receive loop sends). Set before the first goroutine runs.
+	PassThrough func(actor, point string) bool
 }
 
 func New() *Sched {
@@ -86,12 +90,17 @@ func (s *Sched) Hook(point string, id int64) {
 		s.byName[a.name] = a
 	}
 	ar := Arrival{Actor: a.name, Point: point, ID: id}
-	a.parked = &ar
+	pass := s.PassThrough != nil && s.PassThrough(a.name, point)
+	if !pass {
+		a.parked = &ar
+	}
 	a.pending = append(a.pending, ar)
 	s.Log = append(s.Log, ar)
 	s.cond.Broadcast()
 	s.mu.Unlock()
-	<-a.resume
+	if !pass {
+		<-a.resume
+	}
 }
 
 // Done is called by a test goroutine (registered actor) to report that its call into the
@@ -136,6 +145,30 @@ func (s *Sched) Await(name string, d time.Duration) (Arrival, error) {
 			buf := make([]byte, 1<<18)
 			n := runtime.Stack(buf, true)
 			return Arrival{}, &ErrStuck{Actor: name, After: d, Stack: string(buf[:n])}
+		}
+		s.cond.Wait()
+	}
+}
+
+// AwaitAny returns the next unconsumed arrival of any of the named actors.
+func (s *Sched) AwaitAny(names []string, d time.Duration) (Arrival, error) {
+	deadline := time.Now().Add(d)
+	t := time.AfterFunc(d, func() { s.mu.Lock(); s.cond.Broadcast(); s.mu.Unlock() })
+	defer t.Stop()
+	s.mu.Lock()
+	defer s.mu.Unlock()
+	for {
+		for _, name := range names {
+			if a := s.byName[name]; a != nil && len(a.pending) > 0 {
+				ar := a.pending[0]
+				a.pending = a.pending[1:]
+				return ar, nil
+			}
+		}
+		if time.Now().After(deadline) {
+			buf := make([]byte, 1<<18)
+			n := runtime.Stack(buf, true)
+			return Arrival{}, &ErrStuck{Actor: fmt.Sprint(names), After: d, Stack: string(buf[:n])}
 		}
 		s.cond.Wait()
 	}
